@@ -473,7 +473,7 @@ func (fl *flattener) stmt(s ast.Stmt) ([]ast.Stmt, bool) {
 					rets := ownReturns(h)
 					// the helper must end in a return (or never fall off its end)
 					if len(rets) > 0 && len(h.Body.List) > 0 {
-						if _, ok := h.Body.List[len(h.Body.List)-1].(*ast.ReturnStmt); ok {
+						if terminates(h.Body.List[len(h.Body.List)-1]) {
 							out := fl.inlineBody(h, c, false)
 							return out, !fl.dry
 						}
@@ -725,4 +725,68 @@ func (fl *flattener) expr(e ast.Expr) (ast.Expr, bool) {
 		}
 	}
 	return e, false
+}
+
+// terminates: control never flows past the statement: a return, a panic, or a compound statement all of whose ways
+// out are such (an if with else, a switch with a default clause; no break is looked for inside - a helper with labels
+// or gotos is not inlined at all, and an unlabelled break inside a switch clause ends that clause only, which is
+// checked by requiring the clause's LAST statement to terminate).
+func terminates(s ast.Stmt) bool {
+	switch x := s.(type) {
+	case *ast.ReturnStmt:
+		return true
+	case *ast.ExprStmt:
+		if c, ok := x.X.(*ast.CallExpr); ok {
+			if id, ok := ast.Unparen(c.Fun).(*ast.Ident); ok && id.Name == "panic" {
+				return true
+			}
+		}
+	case *ast.BlockStmt:
+		return len(x.List) > 0 && terminates(x.List[len(x.List)-1])
+	case *ast.IfStmt:
+		if x.Else == nil {
+			return false
+		}
+		return terminates(x.Body) && terminates(x.Else)
+	case *ast.SwitchStmt:
+		return clausesTerminate(x.Body)
+	case *ast.TypeSwitchStmt:
+		return clausesTerminate(x.Body)
+	}
+	return false
+}
+
+func clausesTerminate(b *ast.BlockStmt) bool {
+	hasDefault := false
+	for _, c := range b.List {
+		cc, ok := c.(*ast.CaseClause)
+		if !ok {
+			return false
+		}
+		if cc.List == nil {
+			hasDefault = true
+		}
+		if len(cc.Body) == 0 || !terminates(cc.Body[len(cc.Body)-1]) {
+			return false
+		}
+		// a break anywhere inside the clause leaves the switch
+		brk := false
+		ast.Inspect(cc, func(n ast.Node) bool {
+			switch y := n.(type) {
+			case *ast.FuncLit, *ast.ForStmt, *ast.RangeStmt, *ast.SwitchStmt, *ast.TypeSwitchStmt, *ast.SelectStmt:
+				if n != ast.Node(cc) {
+					return false
+				}
+			case *ast.BranchStmt:
+				if y.Tok == token.BREAK {
+					brk = true
+				}
+			}
+			return true
+		})
+		if brk {
+			return false
+		}
+	}
+	return hasDefault
 }
